@@ -24,7 +24,9 @@ MODELLED = ("collocated_integrated_optimization_problem.py transcribe(): layout 
 NOT_MODELLED = "integrate_states=True (single shooting), lookup tables, the linearity check, delayed feedback (C16)"
 ASSUMPTIONS = ["rows are compared at rational probe vectors to 1e-8 relative (binary64 rounding not modelled)"]
 
-FEAT = {"history": True, "retranscribe": True}
+FEAT = {"history": True, "retranscribe": True, "cin_axis": True}
+# a second batch with path / extra variables next to parameters that stay symbolic (member-dependent or dynamic)
+FEAT2 = {"history": True, "retranscribe": True, "cin_axis": True, "pvars": True}
 
 
 def is_dae_diff(d):
@@ -35,6 +37,8 @@ def run(ctx):
     rs = trcheck.replay_spec()
     specs = [rs] if rs else [c["spec"] for c in core.corpus_cases(ID)] + \
         [tr.gen_spec(ctx.rng, FEAT) for _ in range(ctx.n(120, 4000))]
+    if not rs:
+        specs += [tr.gen_spec(ctx.rng, FEAT2) for _ in range(ctx.n(40, 1200))]
     rows = trcheck.run_cases(ctx, ID, specs)
     for s, o, m, diffs in rows:
         nontriv = (len(s["times"]) > 2 or s.get("ensemble_size", 1) > 1) and len(s.get("states", [])) > 0
